@@ -59,6 +59,14 @@ Definition same_result (a b : obs) : bool :=
 (* plus the swallowed-failure records *)
 Definition same_obs (a b : obs) : bool := same_result a b && ms_eqb log_eqb (snd a) (snd b).
 
+(* a crashed PARALLEL run: which of several escaping exceptions surfaces first, and what the other workers have
+   logged by then, depends on the completion order of the pool; only "crashed" is compared *)
+Definition same_obs_mode (mode : nat) (a b : obs) : bool :=
+  match mode, fst (fst a), fst (fst b) with
+  | S _, Some _, Some _ => true
+  | _, _, _ => same_obs a b
+  end.
+
 Definition with_flag (i : nat) (q : cquirks) : cquirks := Build_cquirks false.
 Definition candidates (q : cquirks) : list cquirks := q :: map (fun i => with_flag i q) [0] ++ [ideal].
 
@@ -84,7 +92,7 @@ Definition judge_run (q : cquirks) (mode : nat) (stubs : list stub) (files : lis
   in_domain mode rules files
   :: same_result impl spec
   :: same_result (observe (run_mode mode ideal rules files)) spec
-  :: map (fun c => same_obs impl (observe (run_mode mode c rules files))) (candidates q).
+  :: map (fun c => same_obs_mode mode impl (observe (run_mode mode c rules files))) (candidates q).
 
 (* ---------- language detection ---------- *)
 Definition judge_detect (name : string) (present decodes : bool) (content impl : string) : list bool :=
